@@ -118,6 +118,11 @@ class Server:
                  config=None, env=None, name="srv", daemon=False, tls=False, release=False, relcfg=False, ignsig=False):
         # ignsig: the starter leaves the signals the master uses set to "ignore" (nohup, cron-style launchers, a wrapper that
         # ignores SIGCHLD not to collect zombies); dispositions set to ignore are inherited across fork and exec
+        # (also selectable by a marker among the server arguments, for plans that only carry argument lists)
+        args = list(args)
+        if "@ignsig" in args:
+            args.remove("@ignsig")
+            ignsig = True
         self.ignsig = ignsig
         self.dir = tempfile.mkdtemp(prefix=name + "_", dir=_scratch())
         self.port = None
